@@ -36,7 +36,7 @@ fn oversize_tree() -> impl Strategy<Value = TreeSpec> {
 }
 
 pub fn scenario(max_ops: usize) -> impl Strategy<Value = Scenario> {
-	(0u8..4).prop_flat_map(move |variant| {
+	(0u8..4, 0u8..4).prop_flat_map(move |(variant, bits)| {
 		let mut col = ColCfg::multi();
 		match variant {
 			1 => col.append_only = true,
@@ -49,7 +49,7 @@ pub fn scenario(max_ops: usize) -> impl Strategy<Value = Scenario> {
 		}
 		let rc = col.rc;
 		let ao = col.append_only;
-		let cfg = DbCfg::new(vec![col]);
+		let cfg = DbCfg::new(vec![col]).flags(bits);
 		let ins = (0u16..40, tree_spec(4, true)).prop_map(|(k, t)| Change::InsertTree(k, t));
 		let over = (0u16..40, oversize_tree()).prop_map(|(k, t)| Change::InsertTree(k, t));
 		let one = |s: BoxedStrategy<Change>| s.prop_map(|ch| vec![Item { col: 0, ch }]).boxed();
